@@ -91,10 +91,11 @@ type scenario struct {
 	Named    bool
 	Caller   bool
 	Sev      slog.Level
-	FlagsHow int  // which public way sets the flags (vlib.SetFlagsVia)
-	Disturb  int  // which scratch record is printed right before the record under test (vlib.Disturb; 0 none)
-	How      int  // how the logger gets its format: 0 Set...Mode, 1 option of the package-level New, 2 option of New on a parent in another format, 3 With...Mode method
-	Thru     bool // WriteThru with an explicit timestamp, else LogAttrs
+	FlagsHow int    // which public way sets the flags (vlib.SetFlagsVia)
+	Disturb  int    // which scratch record is printed right before the record under test (vlib.Disturb; 0 none)
+	Layout   string // the logger's own time layout (SetTimeFormat); "": none. It governs the record's time field only
+	How      int    // how the logger gets its format: 0 Set...Mode, 1 option of the package-level New, 2 option of New on a parent in another format, 3 With...Mode method
+	Thru     bool   // WriteThru with an explicit timestamp, else LogAttrs
 	Msg      string
 	Attrs    []vlib.ExpAttr
 	Args     []any
@@ -156,9 +157,15 @@ func run(t vlib.TB, test string, sc scenario, attrsForThru slog.Attrs) {
 	lg.SetWriter(w)
 	lg.SetErrorWriter(w)
 	lg.SetLevel(slog.AlwaysLevel)
+	if sc.Layout != "" {
+		lg.SetTimeFormat(sc.Layout)
+	}
 
 	exp := vlib.ExpRecord{LoggerName: name, LevelName: levelName(sc.Sev), Msg: sc.Msg, Attrs: sc.Attrs, Caller: sc.Caller,
 		TimeLayout: "15:04:05.000000Z07:00", SkipContent: !allKeysValid(sc.Attrs)}
+	if sc.Layout != "" {
+		exp.TimeLayout = sc.Layout
+	}
 	vlib.Disturb(sc.Disturb)
 	func() {
 		defer func() {
@@ -219,8 +226,9 @@ func genScenario(t *rapid.T) (scenario, slog.Attrs) {
 	sc.Sev = rapid.SampledFrom(sevs).Filter(func(l slog.Level) bool { return l != slog.OffLevel }).Draw(t, "severity")
 	sc.Thru = rapid.Bool().Draw(t, "writeThru")
 	sc.How = rapid.SampledFrom([]int{0, 0, 1, 2, 3}).Draw(t, "howFormatIsSet")
-	sc.FlagsHow = rapid.SampledFrom([]int{0, 0, 1, 2, 3}).Draw(t, "flagsHow")
+	sc.FlagsHow = rapid.SampledFrom([]int{0, 0, 1, 2, 3, 4}).Draw(t, "flagsHow")
 	sc.Disturb = rapid.SampledFrom([]int{0, 0, 0, 1, 2, 3, 4, 5, 6}).Draw(t, "disturbance")
+	sc.Layout = rapid.SampledFrom([]string{"", "", "", time.Kitchen, time.Stamp, "15:04", "15:04:05.000"}).Draw(t, "ownTimeLayout")
 	sc.Msg = vlib.GenMsg().Draw(t, "msg")
 	if sc.Sev == slog.AlwaysLevel && strings.Trim(sc.Msg, " \t\r\n") == "" {
 		sc.Msg += "x" // a blank Print is delivered as a bare newline (property C02), not as a record
